@@ -285,10 +285,11 @@ fn c20_cleanup_drops_only_expired_prefix() {
     let j: usize = kani::any();
     kani::assume(j < t.requests.len());
     assert!(t.requests[j].tid == first + (removed + j) as u32);
-    // nothing live was removed
+    // nothing live was removed (live <=> younger than the timeout, as in `get`; an entry exactly at
+    // the timeout is already expired and may or may not be dropped)
     let r: usize = kani::any();
     kani::assume(r < removed);
-    assert!(ages[r] > 500);
+    assert!(ages[r] >= 500, "C20/C06: cleanup never forgets a request that is still in flight");
     // everything strictly older than the timeout was removed
     let s: usize = kani::any();
     kani::assume(s < 3 && ages[s] > 500);
